@@ -112,6 +112,10 @@ bool Variable::addEquivalence(const VariablePtr &variable1, const VariablePtr &v
 
 bool Variable::addEquivalence(const VariablePtr &variable1, const VariablePtr &variable2, const std::string &mappingId, const std::string &connectionId)
 {
+    if ((variable1 == nullptr) || (variable2 == nullptr)) {
+        return false;
+    }
+
     bool added = Variable::addEquivalence(variable1, variable2);
     variable1->pFunc()->setEquivalentMappingId(variable2, mappingId);
     variable1->pFunc()->setEquivalentConnectionId(variable2, connectionId);
@@ -340,7 +344,9 @@ void Variable::setInitialValue(double initialValue)
 
 void Variable::setInitialValue(const VariablePtr &variable)
 {
-    pFunc()->mInitialValue = variable->name();
+    if (variable != nullptr) {
+        pFunc()->mInitialValue = variable->name();
+    }
 }
 
 std::string Variable::initialValue() const
